@@ -62,7 +62,7 @@ def to_call(c):
 
 
 def strat_hist(tier):
-    call = st.fixed_dictionaries({"a": st.integers(0, 3), "b": st.one_of(st.none(), st.integers(0, 2)), "z": st.one_of(st.none(), st.integers(1, 3)),
+    call = st.fixed_dictionaries({"a": st.sampled_from([-1, -2, 2, 3]), "b": st.one_of(st.none(), st.sampled_from([-1, -2, 0])), "z": st.one_of(st.none(), st.integers(1, 3)),
                                   "kw_a": st.booleans(), "kw_b": st.booleans(), "inst": st.integers(0, 2), "fn": st.integers(0, 1)})
     op = st.one_of(call.map(lambda c: ["call", c]), call.map(lambda c: ["call", c]), call.map(lambda c: ["call", c]),
                    st.tuples(st.just("drop"), st.integers(0, 2)).map(list))
